@@ -572,4 +572,123 @@ theorem okU_dropArgs (g i j kg : Nat) (hide : Option Name) (hji : j < i) (hi : i
     · simp only [hh, if_false] at hargs ⊢
       exact hargs
 
+open SamVerif.CpeSem (substExpr)
+
+/-- Run-level form of `exec_substParam`: from the shape alone. -/
+theorem run_substParam (ev : Op → Int → Int → Option Int) (prog : Prog) (g i : Nat) (gfn : PFn)
+    (p : Name) (n : Int)
+    (hg : lookup prog g = some gfn) (hp : gfn.params[i]? = some p) (hnd : gfn.params.Nodup)
+    (hall : ∀ fn ∈ prog, okC g i gfn.params.length n (hideOf g p fn) fn.body) :
+    ∀ (h : Nat) (fuel : Nat) (vals : List Int), (h = g → vals[i]? = some n) →
+      run ev prog h fuel vals =
+        run ev (substParam g i p n prog) h fuel (if h = g then vals.eraseIdx i else vals) := by
+  intro h fuel vals hv
+  have hsim := exec_substParam ev prog g i gfn p n hg hp hnd hall fuel
+  unfold run
+  have hlk : lookup (substParam g i p n prog) h = (lookup prog h).map (fun fn : PFn =>
+      ({ fn with params := if fn.name = g then fn.params.eraseIdx i else fn.params,
+                 body := dropArgs g i (if fn.name = g then substVar p n fn.body else fn.body) } : PFn)) :=
+    lookup_map prog (fun fn : PFn =>
+      ({ fn with params := if fn.name = g then fn.params.eraseIdx i else fn.params,
+                 body := dropArgs g i (if fn.name = g then substVar p n fn.body else fn.body) } : PFn))
+      (fun _ => rfl) h
+  rw [hlk]
+  cases hl : lookup prog h with
+  | none => rfl
+  | some fn =>
+    have hm := lookup_mem hl
+    simp only [Option.map_some]
+    by_cases hhg : h = g
+    · subst hhg
+      have hfn : fn = gfn := by rw [hl] at hg; exact Option.some.inj hg
+      subst hfn
+      simp only [hm.2, if_true]
+      exact hsim.1 fn.body _ _ [] (CpeSem.bindParams_erase p fn.params vals i hp hnd)
+        (CpeSem.bindParams_get p fn.params vals i n hp hnd (hv rfl))
+        (by have := hall fn hm.1; simpa [hideOf, hm.2] using this)
+    · have hne : fn.name ≠ g := fun hq => hhg (hm.2.symm.trans hq)
+      simp only [hne, hhg, if_false]
+      exact hsim.2 fn.body _ [] (by have := hall fn hm.1; simpa [hideOf, hne] using this)
+
+theorem okC_dropArgs (g i j kg : Nat) (m : Int) (hide : Option Name) (hji : j < i) (hi : i < kg) :
+    ∀ (b : PBody), okC g j kg m hide b → okC g j (kg - 1) m hide (dropArgs g i b) := by
+  intro b
+  induction b with
+  | ret e => intro h; exact h
+  | bin x op e1 e2 k ih => intro h; exact ⟨h.1, ih h.2⟩
+  | print es k ih => intro h; exact ih h
+  | ite c t e iht ihe => intro h; exact ⟨iht h.1, ihe h.2⟩
+  | call x h' args k ih =>
+    intro h
+    obtain ⟨hx, hargs, hk⟩ := h
+    refine ⟨hx, ?_, ih hk⟩
+    intro hh
+    obtain ⟨hlen, hlit⟩ := hargs hh
+    simp only [hh, if_true]
+    refine ⟨by rw [List.length_eraseIdx]; simp [hlen, hi], ?_⟩
+    rw [List.getElem?_eraseIdx]
+    simp [hji, hlit]
+
+theorem clean_subst (hide : Option Name) (p : Name) (n : Int) (e : Expr) (h : clean hide e) :
+    clean hide (substExpr p n e) := by
+  cases e with
+  | lit m => exact h
+  | var x =>
+    simp only [substExpr]
+    split
+    · intro q _ hq; cases hq
+    · exact h
+
+theorem okU_substVar (g j kg : Nat) (hide : Option Name) (p : Name) (n : Int) :
+    ∀ (b : PBody), okU g j kg hide b → okU g j kg hide (substVar p n b) := by
+  intro b
+  induction b with
+  | ret e => intro h; exact clean_subst hide p n e h
+  | bin x op e1 e2 k ih =>
+    intro h; exact ⟨h.1, clean_subst _ _ _ _ h.2.1, clean_subst _ _ _ _ h.2.2.1, ih h.2.2.2⟩
+  | print es k ih =>
+    intro h
+    refine ⟨?_, ih h.2⟩
+    intro e he
+    obtain ⟨e0, he0, rfl⟩ := List.mem_map.mp he
+    exact clean_subst _ _ _ _ (h.1 e0 he0)
+  | ite c t e iht ihe => intro h; exact ⟨clean_subst _ _ _ _ h.1, iht h.2.1, ihe h.2.2⟩
+  | call x h' args k ih =>
+    intro h
+    obtain ⟨hx, hargs, hk⟩ := h
+    refine ⟨hx, ?_, ih hk⟩
+    by_cases hh : h' = g
+    · simp only [hh, if_true] at hargs ⊢
+      refine ⟨by simpa using hargs.1, ?_⟩
+      intro j' a hj' ha
+      rw [List.getElem?_map] at ha
+      cases hq : args[j']? with
+      | none => simp [hq] at ha
+      | some a0 =>
+        simp [hq] at ha
+        subst ha
+        exact clean_subst _ _ _ _ (hargs.2 j' a0 hj' hq)
+    · simp only [hh, if_false] at hargs ⊢
+      intro a ha
+      obtain ⟨a0, ha0, rfl⟩ := List.mem_map.mp ha
+      exact clean_subst _ _ _ _ (hargs a0 ha0)
+
+theorem okC_substVar (g j kg : Nat) (m : Int) (hide : Option Name) (p : Name) (n : Int) :
+    ∀ (b : PBody), okC g j kg m hide b → okC g j kg m hide (substVar p n b) := by
+  intro b
+  induction b with
+  | ret e => intro _; trivial
+  | bin x op e1 e2 k ih => intro h; exact ⟨h.1, ih h.2⟩
+  | print es k ih => intro h; exact ih h
+  | ite c t e iht ihe => intro h; exact ⟨iht h.1, ihe h.2⟩
+  | call x h' args k ih =>
+    intro h
+    obtain ⟨hx, hargs, hk⟩ := h
+    refine ⟨hx, ?_, ih hk⟩
+    intro hh
+    obtain ⟨hlen, hlit⟩ := hargs hh
+    refine ⟨by simpa using hlen, ?_⟩
+    rw [List.getElem?_map, hlit]
+    rfl
+
 end SamVerif.CpeProg
